@@ -45,6 +45,8 @@ import (
 	"syscall"
 	"time"
 
+	"go.uber.org/zap"
+
 	. "verifharness/core"
 
 	"github.com/andydunstall/piko/client"
@@ -530,6 +532,8 @@ func (e *nodeEngine) step(ws []string, o *Out) string {
 			return "bad-op"
 		}
 		return e.decide(ws[1] == "1", ws[2], ws[3], o)
+	case "close-during-reconnect":
+		return e.closeDuringReconnect(o)
 	case "proc":
 		return e.proc(ws[1:], o)
 	}
@@ -1125,6 +1129,81 @@ func (e *nodeEngine) decide(ctxCancelled bool, local, inject string, o *Out) str
 	}
 	o.Count("decide:" + out)
 	return "decide " + out
+}
+
+// hookLogger is a client.Logger that parks the reconnect: connect() logs "connected" after a
+// successful dial and BEFORE the new yamux session is created and installed in the listener.
+type hookLogger struct {
+	mu      sync.Mutex
+	n       int
+	reached chan struct{}
+	release chan struct{}
+}
+
+func (l *hookLogger) Debug(msg string, _ ...zap.Field) {
+	if msg != "connected" {
+		return
+	}
+	l.mu.Lock()
+	l.n++
+	n := l.n
+	l.mu.Unlock()
+	if n == 2 {
+		close(l.reached)
+		<-l.release
+	}
+}
+func (l *hookLogger) Info(string, ...zap.Field)  {}
+func (l *hookLogger) Warn(string, ...zap.Field)  {}
+func (l *hookLogger) Error(string, ...zap.Field) {}
+func (l *hookLogger) Sync() error                { return nil }
+
+// closeDuringReconnect drives the schedule: the server drops the connection; Accept reconnects;
+// between the successful dial and the installation of the new session the application calls
+// Listener.Close(); the reconnect then completes.  The property (local Close => ErrClosed) asks
+// Accept to return ErrClosed.  (Not generated and not in the corpus: witness of an observation,
+// see replays/C18-close-during-reconnect.ops.)
+func (e *nodeEngine) closeDuringReconnect(o *Out) string {
+	if e.rig == nil {
+		e.rig = newRig()
+	}
+	r := e.rig
+	hl := &hookLogger{reached: make(chan struct{}), release: make(chan struct{})}
+	u := client.Upstream{URL: &url.URL{Scheme: "http", Host: r.rl.Addr().String()}, Logger: hl,
+		MinReconnectBackoff: 10 * time.Millisecond, MaxReconnectBackoff: 50 * time.Millisecond}
+	adds0 := r.mgr.n()
+	ctx, cancel := context.WithTimeout(context.Background(), settleBound)
+	ln, err := u.Listen(ctx, "cdr")
+	cancel()
+	if err != nil {
+		return "fail listen"
+	}
+	defer func() { _ = ln.Shutdown() }()
+	e.waitFor(5*time.Second, func() bool { return r.mgr.n() > adds0 })
+	res := make(chan error, 1)
+	go func() { _, err := ln.Accept(); res <- err }()
+	upstream.VSessionShed(r.srv, 1<<20) // the server drops the connection
+	select {
+	case <-hl.reached:
+	case <-time.After(settleBound):
+		close(hl.release)
+		return "fail no-reconnect"
+	}
+	_ = ln.Close() // the application closes the listener now
+	close(hl.release)
+	select {
+	case err := <-res:
+		if errors.Is(err, client.ErrClosed) {
+			return "decide closed"
+		}
+		if err != nil && strings.HasPrefix(err.Error(), "connect:") {
+			return "decide connect-err"
+		}
+		return "decide error"
+	case <-time.After(2 * time.Second):
+		o.Fail("C18", "close-lost-during-reconnect", fmt.Sprintf("Accept still blocked 2s after Listener.Close(); registered at the server: %s", ShowCounts(r.mgr.Endpoints())))
+		return "decide blocked"
+	}
 }
 
 // ---------------------------------------------------------------- process tier
